@@ -125,7 +125,7 @@ void wr_thunk(void *slot, const T *par, const T *bpar, const int64_t *i0, const 
 // ---- MASK thunk ---------------------------------------------------------------------------------
 // rk 0: scalar   1: tensor   2: expression R + R2   3: expression c + A (the parent itself, as in the test-suite)   4: int scalar
 template <class T, size_t... Shape>
-void mk_thunk(void *slot, const T *par, const unsigned char *mask, int op, int rk, T c, const T *r, const T *r2, T *outpar) { vf::ArmedThunk vf_armed_;
+void mk_thunk(void *slot, const T *par, const unsigned char *mask, int op, int rk, T c, const T *r, const T *r2, T *outpar, T *rhs_seen) { vf::ArmedThunk vf_armed_;
   using P = Tensor<T, Shape...>; using B = Tensor<bool, Shape...>;
   P &A = *new (slot) P; put(A, par, P::size());
   B m; for (size_t i = 0; i < P::size(); ++i) m.data()[i] = mask[i] != 0;
@@ -136,6 +136,11 @@ void mk_thunk(void *slot, const T *par, const unsigned char *mask, int op, int r
     case 2: apply(A(m), op, Rt + Rt2); break;
     case 3: apply(A(m), op, c + A); break;
     case 5: apply_lazy(A(m), op, Rt); break;
+    // rk 6: the right-hand side is itself a mask view B(m2) of a second tensor under a DIFFERENT mask (m2 = parity of R2). Its value is
+    // whatever the library materialises for `Tensor t = B(m2)`, reported through rhs_seen, so the oracle assumes nothing about
+    // unselected positions of a mask view read
+    case 6: { B m2; for (size_t i = 0; i < P::size(); ++i) m2.data()[i] = (((long long)r2[i]) & 1) != 0;
+              P t = Rt(m2); std::copy(t.data(), t.data() + P::size(), rhs_seen); apply(A(m), op, Rt(m2)); } break;
     default: apply(A(m), op, (int)c); break;
   }
   std::copy(A.data(), A.data() + P::size(), outpar);
@@ -185,7 +190,7 @@ template <class T> inline T op_apply(T x, int op, T r) {
 
 template <class T> using rd_fn = void (*)(const T *, const int64_t *, const int64_t *, int, const T *, T *);
 template <class T> using wr_fn = void (*)(void *, const T *, const T *, const int64_t *, const int64_t *, int, int, int, T, const T *, const T *, T *);
-template <class T> using mk_fn = void (*)(void *, const T *, const unsigned char *, int, int, T, const T *, const T *, T *);
+template <class T> using mk_fn = void (*)(void *, const T *, const unsigned char *, int, int, T, const T *, const T *, T *, T *);
 
 template <class T>
 void read_driver(vf::Draw &d, vf::Ctx &ctx, const Desc &D, bool enumerated, rd_fn<T> thunk) {
@@ -318,8 +323,25 @@ void mask_driver(vf::Draw &d, vf::Ctx &ctx, const MDesc &D, bool enumerated, mk_
   std::vector<T> r, r2, out(n), ref(n); T c;
   for (int op = 0; op < 5; ++op) {
     rhs_data(d, enumerated, op, n, r, r2, c, op);
-    for (int rk = 0; rk < NRK; ++rk) {
+    for (int rk = 0; rk < NRK + 1; ++rk) {
       if (rk == 3 && op == 4) continue;     // x / (c + x) is not exact; not generated
+      if (rk == 6 && op == 4) continue;     // a mask view as divisor holds zeros at its unselected positions
+      if (rk == 6) {                        // two-phase: run first, the reference uses the materialised right-hand side the thunk reports
+        std::vector<T> seen(n, (T)-777);
+        gb.paint_window(slot, D.parent_bytes, 1024);
+        std::fill(out.begin(), out.end(), (T)-12345);
+        thunk(slot, par.data(), mask.data(), op, rk, c, r.data(), r2.data(), out.data(), seen.data());
+        for (int i = 0; i < n; ++i) {
+          T want = mask[i] ? op_apply(par[i], op, seen[i]) : par[i];
+          if (!(out[i] == want)) {
+            ctx.fail("mask %s mask-view B(m2): parent %s flat position %d (mask %s) got %s expected %s = parent %s combined with (Tensor t = B(m2))[i] = %s (mask=%s)", op_name[op], D.shape, i,
+                     mask[i] ? "true" : "false", vfo::show(out[i]).c_str(), vfo::show(want).c_str(), vfo::show(par[i]).c_str(), vfo::show(seen[i]).c_str(), ms.c_str());
+            return;
+          }
+        }
+        if (!gb.window_intact(slot, D.parent_bytes, 1024)) { ctx.fail("mask %s mask-view rhs: bytes outside the parent object were modified (mask=%s)", op_name[op], ms.c_str()); return; }
+        continue;
+      }
       ref = par;
       for (int i = 0; i < n; ++i) if (mask[i]) {
         T rv = rk == 0 || rk == 4 ? c : (rk == 1 || rk == 5) ? r[i] : rk == 2 ? (T)(r[i] + r2[i]) : (T)(c + par[i]);
@@ -327,7 +349,7 @@ void mask_driver(vf::Draw &d, vf::Ctx &ctx, const MDesc &D, bool enumerated, mk_
       }
       gb.paint_window(slot, D.parent_bytes, 1024);
       std::fill(out.begin(), out.end(), (T)-12345);
-      thunk(slot, par.data(), mask.data(), op, rk, c, r.data(), r2.data(), out.data());
+      thunk(slot, par.data(), mask.data(), op, rk, c, r.data(), r2.data(), out.data(), nullptr);
       static const char *mrk[] = {"scalar", "tensor", "expression R+R2", "expression c+A", "int scalar", "expression that needs evaluation (trans(trans(R)) / I % R)"};
       for (int i = 0; i < n; ++i)
         if (!(out[i] == ref[i])) {
